@@ -291,7 +291,23 @@ func (w *walker) value(v reflect.Value, ctx *ir.Func) {
 	case *ir.AttrGroupDef:
 		w.Refs++
 		if !w.attrs[x] {
-			w.add("attrgroup-not-definition", "a reference to attribute group #%d is not an object the module lists", x.ID)
+			listedSameID := false
+			for a := range w.attrs {
+				if a.ID == x.ID {
+					listedSameID = true
+				}
+			}
+			switch {
+			case listedSameID:
+				w.add("attrgroup-copy", "a reference to attribute group #%d is not the object the module lists as definition #%d", x.ID, x.ID)
+			case len(x.FuncAttrs) > 0:
+				w.add("attrgroup-not-listed", "a reference to the non-empty attribute group #%d is an object the module does not list", x.ID)
+			default:
+				// documented exception (C05): a reference to an attribute group the input does not
+				// define is materialised as an empty group; the input has no definition to be
+				// identical with, and LLVM rejects an empty `attributes #N = { }` definition, so the
+				// group cannot be listed.
+			}
 		}
 		return
 	}
